@@ -50,7 +50,6 @@ def main(argv=None):
     t0 = time.time()
 
     from pyvc.repoindex import RepoIndex
-    from pyvc.solve import discharge
     index = RepoIndex(args.repo)
     props = importlib.import_module("contracts.properties")
     if args.pid not in props.PROPERTIES:
@@ -61,14 +60,18 @@ def main(argv=None):
     if args.replay:
         return do_replay(index, prop, args.replay)
 
-    results = []
-    for u in prop.units:
-        for r in u.run(index, tier, seed):
-            r.unit_kind = u.kind
-            r.deductive = u.deductive
-            results.append(r)
-    todo = [ob for r in results for ob in r.obligations if ob.verdict is None]
-    discharge(todo, thorough=(tier == "thorough"))
+    # every unit (and every variant of a contract unit) is generated AND discharged in its own worker process
+    jobs = []
+    for ui, u in enumerate(prop.units):
+        nvar = len(getattr(getattr(u, "contract", None), "variants", [None])) if hasattr(u, "contract") else 1
+        if getattr(u, "kind", "") in ("contract",) and hasattr(u, "contract") and nvar > 1:
+            for vi in range(nvar):
+                jobs.append((args.pid, ui, vi, args.repo, tier, seed))
+        else:
+            jobs.append((args.pid, ui, None, args.repo, tier, seed))
+    inner = max(1, 12 // max(1, len(jobs)))
+    jobs = [j + (inner,) for j in jobs]
+    results = run_jobs(jobs)
 
     known = [k for k in load_known() if k.get("property") == args.pid and k.get("status") == "known"]
     exit_code = 0
@@ -245,6 +248,81 @@ def main(argv=None):
     print(f"{args.pid}: obligations={n_obl} discharged={n_dis} known={len(seen_known)} violations={len(groups)} "
           f"undecided={len(undecided)} faults={len(faults)} wall={ev['wall_s']}s exit={exit_code}")
     return exit_code
+
+
+class _Res:
+    pass
+
+
+def _worker(job):
+    """Generate and discharge one unit (variant) in a fresh process; returns picklable summaries."""
+    pid, ui, vi, repo, tier, seed = job[:6]
+    inner = job[6] if len(job) > 6 else 1
+    import importlib
+    sys.path.insert(0, VERIF)
+    from pyvc.repoindex import RepoIndex
+    from pyvc.solve import discharge
+    index = RepoIndex(repo)
+    props = importlib.import_module("contracts.properties")
+    prop = props.PROPERTIES[pid]()
+    u = prop.units[ui]
+    if vi is not None:
+        u.contract.variants = [u.contract.variants[vi]]
+    out = []
+    try:
+        rs = u.run(index, tier, seed)
+    except Exception as e:
+        import traceback
+        r = _Res()
+        r.unit, r.status, r.detail, r.obligations, r.gen_time, r.info = getattr(u, "name", str(ui)), "engine-error", f"{type(e).__name__}: {e}\n{traceback.format_exc()}", [], 0.0, {}
+        rs = [r]
+    for r in rs:
+        todo = [ob for ob in r.obligations if ob.verdict is None]
+        discharge(todo, thorough=(tier == "thorough"), workers=inner)
+        obs = []
+        for ob in r.obligations:
+            obs.append({"name": ob.name, "kind": ob.kind, "site": ob.site, "verdict": ob.verdict, "backend": ob.backend, "time": ob.time,
+                        "model": ob.model, "meta": _jsonable(ob.meta), "nhyps": len(ob.hyps)})
+        out.append({"unit": r.unit, "status": r.status, "detail": r.detail, "gen_time": r.gen_time, "info": _jsonable_deep(r.info),
+                    "obligations": obs, "unit_kind": u.kind, "deductive": u.deductive})
+    return out
+
+
+def _jsonable_deep(x):
+    try:
+        json.dumps(x)
+        return x
+    except TypeError:
+        if isinstance(x, dict):
+            return {str(k): _jsonable_deep(v) for k, v in x.items()}
+        if isinstance(x, (list, tuple)):
+            return [_jsonable_deep(v) for v in x]
+        return str(x)
+
+
+class _Ob:
+    def __init__(self, d):
+        self.__dict__.update(d)
+        self.hyps = [None] * d.get("nhyps", 0)
+
+
+def run_jobs(jobs):
+    from concurrent.futures import ProcessPoolExecutor
+    nproc = int(os.environ.get("PYVC_WORKERS", "12"))
+    outs = []
+    if len(jobs) == 1 or nproc <= 1:
+        raw = [_worker(j) for j in jobs]
+    else:
+        with ProcessPoolExecutor(max_workers=min(nproc, len(jobs))) as ex:
+            raw = list(ex.map(_worker, jobs))
+    for lst in raw:
+        for d in lst:
+            r = _Res()
+            r.unit, r.status, r.detail, r.gen_time, r.info = d["unit"], d["status"], d["detail"], d["gen_time"], d["info"]
+            r.unit_kind, r.deductive = d["unit_kind"], d["deductive"]
+            r.obligations = [_Ob(o) for o in d["obligations"]]
+            outs.append(r)
+    return outs
 
 
 def _jsonable(d):
